@@ -41,7 +41,7 @@ Proof. exact stamp_correct. Qed.
 (* non-vacuity: the hypotheses are met by concrete dates, and the model computes *)
 Example C16_witness_leapday : valid_date 2000 2 29 /\ amiga_days 2000 3 1 = 8095 /\
   c_adfTime2AmigaTime 100 1 0 0 3 0 100 = Some (8095, 0, 0) /\
-  c_adfDays2Date 9000 8095 = Some (2000, 3, 1).
+  c_adfDays2Date (fuel_for_days 8095) 8095 = Some (2000, 3, 1).
 Proof. repeat split; vm_compute; try reflexivity; intro X; discriminate X. Qed.
 
 Print Assumptions C16_days2date.
